@@ -48,6 +48,57 @@ CHECKS = {
             "fall short of the peak by at most |jerk|; ~6e4 states have a strictly interior peak.",
             "Exhaustive only over the stated lattice; trusts mc/firmware.py as the recurrence.",
             "DESIGN.md §3 C17"),
+    "C04": ("explicit-state search over call histories of the real EBB3 object (E2) with error "
+            "states discovered by deviation-bounded fault exploration (E1)",
+            "All request methods (found by introspection) are run from the healthy state under "
+            "every environment vector with <= 1 (thorough 2) deviations to discover every "
+            "blocked state (one per recorded message/board state); from each of them, and from "
+            "7 not-connected states, every method is run again, then disconnect/connect "
+            "variants and every method once more: zero write attempts, failure value, no "
+            "exception, and a logged first-error-wins latch are checked on every transition.",
+            "Trusts the fake port/board; connect() faults are left to C15; histories of depth "
+            "<= 4 (5 thorough).",
+            "DESIGN.md §3 C04"),
+    "C05": ("deviation-bounded exhaustive exploration (E1) of fake-port answers for the "
+            "primitives, every request method and all ordered method pairs, against an "
+            "independent reference model and a reply-attribution ledger",
+            "command/query x 14 request strings and every public request method are executed "
+            "for every environment vector with <= 2 (thorough 3) deviations (latency "
+            "0/1/24/25/26, bare/comma-less/wrong-name/error replies, silence, four exception "
+            "classes at write and early reads); framing, success criterion, payload stripping, "
+            "no-raise, error recording, failure value, differential equality under tolerated "
+            "latencies and attribution of every reply are checked on each execution.",
+            "Trusts EBB3Board (future syntax). query_statusbyte treated as single-read poll; "
+            "RB/R/BL exception exemption as coded in the library (DESIGN C05 i-iv).",
+            "DESIGN.md §3 C05"),
+    "C06": ("exhaustive lattice enumeration (E3) of helper arguments in both layers against a "
+            "table of documented command formats; bytes observed at an acknowledging fake port",
+            "Every helper of ebb_motion and every EBB3 request method (introspected; a helper "
+            "without a table entry is reported) is called over the full product of a 17-value "
+            "integer alphabet with optional arguments absent/None/0/non-zero, resolutions -2..8 "
+            "from all 20 board motor states, every pause -3..4000, LM over 4^6 x clear; exact "
+            "text, cross-layer equality, chunk-sum and no-port silence are checked.",
+            "Documented formats come from the EBB command reference/docstrings as transcribed "
+            "in mc/props/c06.py; one known finding (doLowLevelMove clear=0) is listed.",
+            "DESIGN.md §3 C06"),
+    "C15": ("exhaustive enumeration of version/threshold pairs (E3) plus deviation-bounded "
+            "exploration of connect() handshake histories (E1/E2) with stubbed enumerator/port",
+            "512x512 version pairs through both layers' min_version; connect() histories "
+            "(connect+requests, connect-connect, connect-disconnect-connect) under every "
+            "environment vector with <= 2 (thorough 3) deviations over open failure, 9 banner "
+            "kinds per probe, late/silent/error replies and raising I/O: True+no-error only "
+            "after a verified >= 3.0.2 banner, rejected devices get False+error+closed port and "
+            "nothing beyond the probe, in every later call too; 5 legacy gates x 12 versions.",
+            "Faults after a supported board was verified are explored but unclassified.",
+            "DESIGN.md §3 C15"),
+    "C16": ("explicit-state search of write/read and motor-enable histories against the "
+            "EBB3Board reference model",
+            "All int32 byte-pattern values x all slots (RAM inspected directly), overlapping "
+            "double writes, all 20 motor states (installed directly and reached through the "
+            "library, compared) x all (r1,r2) in -1..7 with query read-back and depth-2/3 "
+            "chains, and 7x7 nickname histories.",
+            "Trusts EBB3Board's EM/QE/SL/QL/ST/QT semantics (EBB command reference).",
+            "DESIGN.md §3 C16"),
     "C07": ("deviation-bounded exhaustive exploration of fake-port answers (E1) over request "
             "histories (E2), real code vs. board-model ledger",
             "Every history of 1-2 (thorough: 3) legacy requests is executed on the real "
